@@ -300,6 +300,7 @@ class Compiler:
             return_type=ret_type,
         )
         transformer.macros = self.transformer.macros
+        transformer.hybrid_tmp_prefix = f"{name}_"
         body = transformer.transform(ast_body)
         return SubRoutine(name, ret_type, params, body)
 
